@@ -136,6 +136,21 @@ static inline cstl_iter F_(_erase)(LP_ *P, L_ *l, cstl_iter it)
     return b;
 }
 
+/* erase(first,last): node by node; route U runs it under the unwinding bound of the harness (a bounded number of erased
+ * nodes per call -- each enters the ghost log --, any list length) */
+static inline cstl_iter F_(_erase_range)(LP_ *P, L_ *l, cstl_iter first, cstl_iter last)
+{
+    CSTL_ASSERT(F_(_valid)(P, first) && P->owner[first] == l->head, "std.list.erase(range): first valid in this list [C08]");
+    CSTL_ASSERT(F_(_valid)(P, last) && P->owner[last] == l->head, "std.list.erase(range): last valid in this list [C08]");
+    cstl_iter it = first;
+    while (it != last)
+    {
+        CSTL_ASSERT(!P->sent[it], "std.list.erase(range): [first,last) is a valid range [C08]");
+        it = F_(_erase)(P, l, it);
+    }
+    return last;
+}
+
 #undef L_
 #undef LP_
 #undef F_
